@@ -76,7 +76,7 @@ def gen_case(rng, max_cells=40, max_mag=8, max_events=120, zero_frac=None, rate_
     }
     # object histories / storage layouts that leave the mathematical input unchanged (drawn last: earlier draws keep their values)
     hk = float(rng.uniform())
-    case["history"] = None if hk < 0.7 else ("regridded" if hk < 0.8 else ("inplace-reordered" if hk < 0.9 else "f4-magnitudes"))
+    case["history"] = None if hk < 0.65 else ("regridded" if hk < 0.75 else ("inplace-reordered" if hk < 0.85 else ("f4-magnitudes" if hk < 0.93 else "scaled-rates-read")))
     lk = float(rng.uniform())
     case["layout"] = None if lk < 0.8 else ("F" if lk < 0.9 else "T")
     return case
@@ -131,6 +131,9 @@ def build(case, name="fore"):
         fore._data = numpy.asfortranarray(fore._data)
     elif lay == "T":
         fore._data = numpy.ascontiguousarray(fore._data.T).T
+    if hist == "scaled-rates-read" and n:
+        # history: the per-day rates at the events were read from this forecast object (what a T-test with scale=True does) before the test
+        _quiet(lambda: fore.target_event_rates(cat, scale=True))
     return fore, cat, reg, w
 
 
